@@ -1,6 +1,7 @@
 (* C04 — the assembler accepts exactly the programs whose operands fit. *)
-From Coq Require Import ZArith.
-From Lace Require AsmAccept.
+From Coq Require Import ZArith List.
+Import ListNotations.
+From Lace Require AsmAccept AsmLayout AsmOrig.
 From Lace Require Import Word Machine Isa Asm AsmProofs.
 Open Scope N_scope.
 
@@ -90,3 +91,28 @@ Theorem C04_trap_statement : forall k toks te n,
   AsmAccept.specL (AsmAccept.trap_shape k) (parse_trap k (toks, te) n) toks te.
 Proof. exact AsmAccept.parse_trap_accepts. Qed.
 Print Assumptions C04_trap_statement.
+
+(** `.orig` appears at most once.  One round of the parser on a `.orig` statement with an acceptable
+    operand: a second one is rejected ("origin set twice"), a first one is recorded ([stmt_part] is
+    the part of a parse round after the optional prefix label; [AsmLayout.parse_round] shows it is
+    the parser's own term) ... *)
+Theorem C04_orig_twice : forall rec n ps labeled t r sym1 v toks2 te2,
+  tk t = KDir DOrig ->
+  expect_lit (Unsigned 16) (r, p_tok_end ps) n = Ok (v, (toks2, te2)) ->
+  AsmLayout.stmt_part rec n ps labeled (t :: r) sym1 =
+  match a_orig (p_air ps) with
+  | Some _ => (Err E_orig_twice 0 0, sym1)
+  | None => rec (mkParser toks2 (mkAir (Some v) (a_ast (p_air ps)) (a_bps (p_air ps)))
+                          (p_line ps) te2 sym1 (p_count ps))
+  end.
+Proof. exact AsmOrig.orig_round. Qed.
+Print Assumptions C04_orig_twice.
+
+(** ... and a recorded origin never changes: whatever follows, the parse fails or ends with it. *)
+Theorem C04_orig_kept : forall fuel n ps o, a_orig (p_air ps) = Some o ->
+  match fst (parse fuel n ps) with
+  | Ok (a, _) => a_orig a = Some o
+  | _ => True
+  end.
+Proof. exact AsmOrig.parse_keeps_orig. Qed.
+Print Assumptions C04_orig_kept.
